@@ -331,13 +331,17 @@ def polygonalRef (flag : Bool) (polys : List (List VSeq)) : Verdict :=
     fun (_ : Unit) => if geo.length ≤ 1 then none else shellsNotNested geo,
     fun (_ : Unit) => interiorConnected geo])
 
+/-- `checkRingSimple`: any bad intersection of a LinearRing with itself is reported as ring self-intersection -/
+def ringSimpleRule (s : VSeq) : Option Verdict :=
+  match areaIntersections false (polySegs [[dedup s.pts]]) with
+  | some v => some { v with codes := [eRingSelfIntersection], ambiguous := false }
+  | none => none
+
 def ringRef (s : VSeq) : Verdict :=
   if s.pts.isEmpty then Verdict.ok else
   firstOf [
     fun (_ : Unit) => coordRule [s], fun (_ : Unit) => closedRule [s], fun (_ : Unit) => sizeRule 4 [s],
-    fun (_ : Unit) => match areaIntersections false (polySegs [[dedup s.pts]]) with
-      | some v => some { v with codes := [eRingSelfIntersection], ambiguous := false }
-      | none => none]
+    fun (_ : Unit) => ringSimpleRule s]
 
 def lineRef (s : VSeq) : Verdict :=
   if s.pts.isEmpty then Verdict.ok else firstOf [fun (_ : Unit) => coordRule [s], fun (_ : Unit) => sizeRule 2 [s]]
